@@ -35,6 +35,8 @@ type Delivery struct {
 	Shuffle *rand.Rand
 	// NoYAML suppresses the config file altogether (everything must be in CLI).
 	NoYAML bool
+	// Extra parameters are added verbatim next to the computed ones (options given on BOTH channels).
+	Extra []string
 }
 
 func q(s string) string {
@@ -235,6 +237,7 @@ func Emit(c *ir.Config, d Delivery) (yaml string, params []string) {
 		}
 		secs = append(secs, yamlSection{"injected_fields", "injected_fields:\n" + b.String()})
 	}
+	params = append(params, d.Extra...)
 	if d.Shuffle != nil {
 		d.Shuffle.Shuffle(len(secs), func(i, j int) { secs[i], secs[j] = secs[j], secs[i] })
 		d.Shuffle.Shuffle(len(params), func(i, j int) { params[i], params[j] = params[j], params[i] })
